@@ -35,7 +35,7 @@ PROPS["C15"] = {
     "bounds": {"quick": {"templates": 9, "symbolic_bytes_per_template": "2 (full byte range)"}, "thorough": {"templates": "9 + 8 further families (lists, q-values, wildcards, parameters, suffixes, case)", "symbolic_bytes_per_template": "2-3 (full byte range)"}},
     "assumptions": ["the stdlib json/xml/gob encoders write what their decoders read (only the *kind* of encoder/decoder is compared for them; text encoders/decoders are executed)",
                     "mime.ParseMediaType (executed symbolically from its own SSA) is the reference for 'the media type of a header value'"],
-    "outside": ["header values outside the 9 template families or with more symbolic bytes", "pre-set response Content-Type headers (SetContentType suffix logic) - not yet covered",
+    "outside": ["header values outside the 9 template families or with more symbolic bytes", "pre-set response Content-Type headers that are not well-formed media types",
                 "multipart and websocket bodies"],
     "manifest": {
         "text": "Bounded model checking of the real http.ResponseEncoder/ResponseDecoder/RequestDecoder/RequestEncoder/SetContentType/text encoder+decoder with the real mime.ParseMediaType and strings code interpreted on symbolic bytes: for every Accept / designed Content-Type / request Content-Type drawn from 9 template families with 2 fully symbolic bytes (thorough: 8 further template families), the encoder kind equals the kind of decoder the library selects from the header the call left behind, equals the documented choice (reference model written from the doc comments), unparsable or unsupported values fall back to JSON resp. are refused with unsupported_media_type -> 415, and text bodies round-trip byte for byte.",
@@ -187,13 +187,14 @@ PROPS["C04"] = {
     "level": "translation_validation",
     "prepare": g_prepare,
     "jobs": [],
-    "designs": ["v1", "v2", "v3", "v4"],
+    "designs": ["v1", "v2", "v3", "v4", "v5"],
     "harness_tag": "c04",
     "assert_exclude": r"^openapi:",
     "quick": r"^VerifC04_", "thorough": r"^VerifC04T?_",
     "bounds": {"designs": {"v1": "ints: body Int min/max required, Int64 enum; query Int min; path Int max; header Int32 min",
                            "v2": "floats: exclusive min+max, min, query Int/Float64 exclusive max, UInt max; strings: rune min/max length, enum, pattern, ipv4 format, header max length",
-                           "v3": "array min/max length + element min, map length + key length + elem max, required nested user type, array of user types, map key pattern inside nested user type, query array min length"},
+                           "v3": "array min/max length + element min, map length + key length + elem max, required nested user type, array of user types, map key pattern inside nested user type, query array min length",
+                           "v4": "two body types sharing member names; required query parameter with a default", "v5": "required cookie with min length after a validated query parameter; map and array of a user type with a required member; body default with minimum"},
                "values": "every numeric leaf a full-width symbolic integer/float; strings up to 4 symbolic bytes (valid UTF-8); parameter texts = decimal rendering of an arbitrary number | junk | absent; arrays up to 3 elements, maps up to 2 entries; body: JSON document | empty | malformed"},
     "assumptions": ["JSON decoding of the request body into the generated body struct follows encoding/json's documented struct mapping (absent/null -> nil pointer); modelled by the harness filling the body struct",
                     "strconv Format/Parse are inverse (exact in the executor through provenance, real text in native replays)",
@@ -299,7 +300,7 @@ PROPS["C20"] = {
     },
 }
 
-ALL_DESIGNS = ["v1", "v2", "v3", "v4", "d1", "a1", "a2", "e1", "s1", "w1", "w2", "p1", "c1", "c2", "c3", "c4", "c5"]
+ALL_DESIGNS = ["v1", "v2", "v3", "v4", "v5", "d1", "a1", "a2", "e1", "s1", "w1", "w2", "p1", "c1", "c2", "c3", "c4", "c5"]
 
 PROPS["C01"] = {
     "level": "other",
